@@ -39,7 +39,7 @@ func init() {
 		Run: runC07, Workers: 16, GOMAXPROCS: 4,
 		QuickTimeout: 8 * time.Minute, ThoroughTimeout: 40 * time.Minute,
 		QuickFloor: 200, ThoroughFloor: 4000,
-		RequiredCounters: []string{"instances_entered", "supersessions_while_exiting", "removal_claims_checked", "retry_obligations_checked", "calls_while_retry_pending", "gated_timer_templates", "delayed_removal_expiry_checks", "KeyedExecStart", "KeyedTimer"},
+		RequiredCounters: []string{"instances_entered", "supersessions_while_exiting", "removal_claims_checked", "retry_obligations_checked", "calls_while_retry_pending", "gated_timer_templates", "delayed_removal_expiry_checks", "keyedrefcount_live_instances_seen", "KeyedExecStart", "KeyedTimer"},
 		Rule: "each case drives one Keyed over 1-4 keys through bursts of SetKey(start on/off)/RemoveKey/SyncKeys/RestartRoutine/ResetRoutine/RestartAll/ResetAll/SetContext/ClearContext while routines take a seeded time to return after cancellation, fail (1 ms retry backoff) or succeed; " +
 			"per key and membership epoch an active counter is asserted at every entry; after RemoveKey/ClearContext return (or a delayed removal has surely fired) no instance of that epoch may be live or start; a failed routine of a key that stays in the set must be entered again by the settle point whatever non-restarting calls happened; " +
 			"gated templates hold a fired retry-timer callback while the routine is restarted; non-trivial = two or more supersessions of one key inside one exit latency, or a call on a key while its retry timer was pending; distinct = distinct event orders",
@@ -921,6 +921,9 @@ func runC07(w *mon.Worker) {
 	for i := 0; i < w.Share(w.Scale(64, 2000)); i++ {
 		w.Case("removal-gate", nil, c07RemovalGateCase)
 	}
+	for i := 0; i < w.Share(w.Scale(320, 20000)); i++ {
+		w.Case("refcount-lifecycle", nil, c07RefCountLifecycleCase)
+	}
 }
 
 func c07BurstCase(c *mon.Case, retry bool) {
@@ -1483,4 +1486,135 @@ func c07RemovalGateCase(c *mon.Case) {
 		c.Violate("removal", "keyed-rerequested-key-routine-cancelled", "after the re-request (%s) the key is in the set but %d instances with a live context exist, want exactly 1", how, live)
 	}
 	w.k.ClearContext()
+}
+
+// c07RefCountLifecycleCase drives the reference-counted front end over the same routines: its context calls, removal by
+// the last Release / RemoveKey and its Restart/Reset calls have to keep the per-key lifecycle rules of the statement.
+func c07RefCountLifecycleCase(c *mon.Case) {
+	r := c.Rng
+	exitLat := 10 + r.IntN(150)
+	behave := func(n int, key string, ctor int) (bool, int, error) { return true, exitLat, nil } // run until cancelled, return a little later
+	w := newK7World(c, false, 0, behave)
+	rc := keyed.NewKeyedRefCount(w.ctor)
+	cx := &rtCtxs{}
+	defer cx.cancelAll()
+	keys := []string{"a", "b", "c"}[:1+r.IntN(3)]
+	refs := map[string][]*keyed.KeyedRef[string, int]{}
+	present := func(k string) bool { return len(refs[k]) > 0 }
+	checkCancelled := func(call int64, what string, onlyKey string) {
+		for _, in := range w.instances() {
+			if (onlyKey == "" || in.key == onlyKey) && in.enter < call && in.exit.Load() == 0 && in.ctx.Err() == nil {
+				c.Violate("removal", "keyedrefcount-instance-not-cancelled", "%s (called at %d) returned, but instance #%d of key %s still has a live context", what, call, in.n, in.key)
+			}
+		}
+	}
+	ctx, _ := cx.fresh()
+	rc.SetContext(ctx, false)
+	hist := ""
+	for i := 0; i < 6+r.IntN(14) && !c.Violated(); i++ {
+		key := keys[r.IntN(len(keys))]
+		switch k := r.IntN(12); {
+		case k < 4:
+			if !present(key) {
+				w.mu.Lock()
+				w.epoch[key]++
+				w.mu.Unlock()
+			}
+			ref, _, _ := rc.AddKeyRef(key)
+			refs[key] = append(refs[key], ref)
+			hist += "AddKeyRef(" + key + ") "
+		case k < 7:
+			if l := refs[key]; len(l) > 0 {
+				ref := l[len(l)-1]
+				refs[key] = l[:len(l)-1]
+				last := len(refs[key]) == 0
+				call := c.Rec("d", "Release "+key, last)
+				if last {
+					w.mu.Lock()
+					w.removed[epochKey(key, w.epoch[key])] = call
+					w.mu.Unlock()
+				}
+				ref.Release()
+				hist += "Release(" + key + ") "
+				if last {
+					checkCancelled(call, "the last Release of key "+key, key)
+				}
+			}
+		case k < 8:
+			call := c.Rec("d", "RemoveKey "+key, nil)
+			if present(key) {
+				w.mu.Lock()
+				w.removed[epochKey(key, w.epoch[key])] = call
+				w.mu.Unlock()
+			}
+			rc.RemoveKey(key)
+			refs[key] = nil
+			hist += "RemoveKey(" + key + ") "
+			checkCancelled(call, "RemoveKey("+key+")", key)
+		case k < 9:
+			call := c.Rec("d", "ClearContext", nil)
+			rc.ClearContext()
+			cx.cur, cx.curTag = nil, 0
+			hist += "ClearContext "
+			checkCancelled(call, "ClearContext", "")
+		case k < 10:
+			nctx, tag := cx.fresh()
+			call := c.Rec("d", fmt.Sprint("SetContext new#", tag), nil)
+			rc.SetContext(nctx, r.IntN(2) == 0)
+			hist += "SetContext(new) "
+			checkCancelled(call, "SetContext(new)", "")
+		case k < 11:
+			c.Rec("d", "RestartRoutine "+key, nil)
+			rc.RestartRoutine(key)
+			hist += "RestartRoutine(" + key + ") "
+		default:
+			c.Rec("d", "ResetRoutine "+key, nil)
+			rc.ResetRoutine(key)
+			hist += "ResetRoutine(" + key + ") "
+		}
+		if r.IntN(3) == 0 {
+			if !mon.Quiesce(5 * time.Second) {
+				c.Inconclusive("no quiescence")
+				return
+			}
+		}
+	}
+	if !mon.Quiesce(5 * time.Second) {
+		c.Inconclusive("no quiescence")
+		return
+	}
+	c.Count("keyedrefcount_lifecycle_cases", 1)
+	c.Mix(mon.HashBytes([]byte(hist)))
+	live := map[string]int{}
+	for _, in := range w.instances() {
+		if in.exit.Load() == 0 && in.ctx.Err() == nil {
+			live[in.key]++
+			if !present(in.key) || cx.cur == nil {
+				c.Violate("removal", "keyed-live-instance-of-removed-key", "at quiescence instance #%d of key %s is live although the key has no reference / the context was cleared (references %d, context set %v). History: %s", in.n, in.key, len(refs[in.key]), cx.cur != nil, hist)
+			} else if in.tag != cx.curTag {
+				c.Violate("removal", "keyed-live-instance-of-old-context", "at quiescence instance #%d of key %s derives from context #%d, the current one is #%d. History: %s", in.n, in.key, in.tag, cx.curTag, hist)
+			}
+		}
+	}
+	for k, n := range live {
+		if n > 1 {
+			c.Violate("overlap", "keyed-two-live-instances", "at quiescence key %s has %d live instances. History: %s", k, n, hist)
+		}
+	}
+	if len(live) > 0 {
+		c.NonTrivial()
+		c.Count("keyedrefcount_live_instances_seen", int64(len(live)))
+	}
+	rc.ClearContext()
+	cx.cancelAll()
+	if !mon.Quiesce(5 * time.Second) {
+		c.Inconclusive("no quiescence at the end")
+		return
+	}
+	for _, in := range w.instances() {
+		if in.exit.Load() == 0 {
+			c.Violate("removal", "keyed-instance-leaked", "after ClearContext instance #%d of key %s has not returned at quiescence", in.n, in.key)
+			break
+		}
+	}
 }
